@@ -16,6 +16,10 @@ structure DSt where
   opn : Nat := 0             -- begun and not yet ceased, by op count
   hc : Nat := 0
   bc : Nat := 0
+  /-- the harness holds the mutex; what lined up on it: `none` = a CeaseVigil, `some w` = waiter `w` -/
+  muHeld : Bool := false
+  closeCancels : Bool := true
+  muQueue : List (Option Nat) := []
 
 def act (d : DSt) (a : Act) : DSt :=
   match step d.cfg d.s a with
@@ -28,6 +32,7 @@ def letter (pc : WPc) : String :=
   match pc with
   | .done => "d"
   | .checked => "c"
+  | .idle => "q"
   | _ => "p"
 
 def render (d : DSt) : String :=
@@ -48,14 +53,42 @@ def finding (cfg : Cfg) : String :=
   if !cfg.checkStrict then "C17-wait-never-returns" else "C17-lost-wakeup"
 
 def stepLine (d : DSt) (line : String) : DSt × String :=
-  match words line with
-  | ["case", _] => ({ cfg := d.cfg }, line)
+  let ws := words line
+  if d.muHeld && !(ws.head? ∈ [some "begin", some "cease", some "wait", some "freemu", some "case"]) then (d, "busy") else
+  match ws with
+  | ["case", _] => ({ cfg := d.cfg, closeCancels := d.closeCancels }, line)
+  | ["holdmu"] =>
+    if d.held.isSome then (d, "busy") else
+    let d := { d with muHeld := true }
+    (d, s!"holdmu {render d}")
+  | ["freemu"] =>
+    if !d.muHeld then (d, "skip") else
+    -- the line gets the mutex in order
+    let (d, res) := d.muQueue.foldl (fun (acc : DSt × List String) who =>
+      let d := acc.1
+      match who with
+      | none =>
+        if d.held.isSome then (d, acc.2 ++ ["c:blocked"]) else
+        let d := if d.cfg.decUnderLock then ceaseUnderLock d else act d .cDec
+        ({ d with hc := d.hc + 1, bc := d.bc - 1 }, acc.2 ++ ["c:held"])
+      | some w =>
+        let d := acts d [.wLock w, .wCheck w]
+        if d.s.wpc w == .checked then ({ d with held := some w }, acc.2 ++ [s!"{w + 1}:checked"])
+        else (d, acc.2 ++ [s!"{w + 1}:done"])) ({ d with muHeld := false }, [])
+    let d := { d with muQueue := [] }
+    (d, s!"freemu {" ".intercalate res} {render d}")
+  | ["closefail"] =>
+    if d.closeCancels then (d, "closefail returned") else (d, "closefail stuck\t#F:C17-close-never-completes")
   | ["begin"] =>
     let d := { act d .begin with opn := d.opn + 1 }
     (d, s!"begin {render d}")
   | ["cease"] =>
     if d.opn == 0 then (d, "skip") else
     let d := { d with opn := d.opn - 1 }
+    if d.muHeld && d.cfg.decUnderLock then
+      let d := { d with bc := d.bc + 1, muQueue := d.muQueue ++ [none] }
+      (d, s!"cease queued {render d}")
+    else
     if d.cfg.decUnderLock then
       if d.held.isSome then
         let d := { d with bc := d.bc + 1 }
@@ -73,7 +106,12 @@ def stepLine (d : DSt) (line : String) : DSt × String :=
     let d := settle d
     (d, s!"bcast {render d}")
   | ["wait"] =>
-    if d.held.isSome then (d, "busy") else
+    if d.held.isSome || (d.muHeld && (d.muQueue.getLast?.bind id).isSome) then (d, "busy") else
+    if d.muHeld then
+      let w := d.n
+      let d := { d with n := d.n + 1, muQueue := d.muQueue ++ [some w] }
+      (d, s!"wait {w + 1} queued {render d}")
+    else
     let w := d.n
     let d := acts { d with n := d.n + 1 } [.wLock w, .wCheck w]
     if d.s.wpc w == .checked then
@@ -102,13 +140,15 @@ def stepLine (d : DSt) (line : String) : DSt × String :=
       | _ =>
         if stuckB d.s w then (d, s!"expect {k} stuck {render d}\t#F:{finding d.cfg}")
         else (d, s!"expect {k} parked {render d}")
-  | ["rpcs"] => (d, "rpcs calls=5 sys=false vig=false")
+  -- (the last-key Delete: one auto-destroy fired inside a vigil pair ⇒ the dead instance's counter is −1,
+  --  `Hv.C17.defer_balance_autodestroy`)
+  | ["rpcs"] => (d, "rpcs calls=7 sys=false vig=false vigdead=-1")
   | _ => (d, "bad-op")
 
 def run (args : List String) : IO UInt32 := do
   let kv := parseArgs args
   let cfg : Cfg := { decUnderLock := arg kv "decrementUnderCondLock" == "yes", checkStrict := arg kv "checkStrict" != "no" }
-  lineLoop stepLine { cfg := cfg }
+  lineLoop stepLine { cfg := cfg, closeCancels := arg kv "closeCancels" != "no" }
   return 0
 
 end Driver.C17
